@@ -274,3 +274,19 @@ Definition claim_dyn (unchecked : bool) (poolbal : Z) (rate w : dec) (cstart las
   if amount <? 0 then (if unchecked then Panic "neg-coin" else Err "pool balance does not cover the amount")
   else if poolbal <? amount then (if unchecked then Panic "neg-coin" else Err "pool balance does not cover the amount")
   else Ok (poolbal - amount).
+
+(* ------------------------------------------------------------------ recovery: IncreaseRecoveryTokenUnderlying (proposer payout, BeginBlock).
+   The holder index key is prefix ++ denom ++ holder WITHOUT a separator and GetRRTokenHolders iterates prefix ++ denom:
+   unless only exact-denom entries are kept, the entries of every denom that EXTENDS this one are listed too. *)
+Fixpoint str_prefix (p s : string) : bool :=
+  match p, s with
+  | EmptyString, _ => true
+  | String a p', String b s' => Ascii.eqb a b && str_prefix p' s'
+  | _, _ => false
+  end.
+Definition rr_listed (exact : bool) (denom : string) (index : list (string * Z)) : list Z :=
+  map snd (filter (fun e => if exact then String.eqb (fst e) denom else str_prefix denom (fst e)) index).
+(* every listed holder is credited floor(amount * balance / supply); Coins.Sub(amount, total) panics below zero *)
+Definition rr_allocate (amount supply : Z) (bal : Z -> Z) (listed : list Z) : outcome Z :=
+  let total := zsum (map (fun h => Z.quot (amount * bal h) supply) listed) in
+  if amount <? total then Panic "neg-coin" else Ok (amount - total).
